@@ -214,11 +214,8 @@ fn all<'a>(d: &'a [(String, String)], name: &str) -> Vec<&'a str> {
     d.iter().filter(|(n, _)| n == name).map(|(_, v)| v.as_str()).collect()
 }
 fn panic_site(p: &str) -> String {
-    let mut it = p.splitn(3, ':');
-    match (it.next(), it.next()) {
-        (Some(f), Some(l)) => format!("{f}:{l}"),
-        _ => p.to_string(),
-    }
+    // file + normalised message (no line number): survives unrelated edits
+    vp::rs::panic_site(p)
 }
 fn head(e: &str) -> &str {
     e.lines().next().unwrap_or("")
